@@ -24,9 +24,65 @@ def faults(job, rng, home):
     """Message duplication / delay, arbitrary outcomes."""
     w = gen.generate(rng, features=job.get("features"))
     outcome = gen.make_outcome(w, rng, job.get("mode", "any"))
-    pol = dict(p_dup=0.3, p_env=0.6, reorder=True)
+    pol = dict(p_dup=0.3, p_env=0.6, reorder=True, late_submit_callback=True)
     pol.update(job.get("policy") or {})
     res = driver.execute(w.flow_text(), outcome, rng.randrange(1 << 30), home, policy=pol)
     return _pack(job["seed"], w, res, {"faults": True, "allcomplete": False})
 
 SCENARIOS = {"plain": plain, "faults": faults}
+
+def _done_set(events):
+    out = set()
+    for e in events:
+        if e["e"] in ("state", "msg", "prepare", "spawn") and "t" in e:
+            t = e["t"]
+            for o in t["outs"]:
+                out.add((t["id"][0], t["id"][1], o))
+    return out
+
+def _twin(w, outcome_seed, env_seed, home, mode, policy=None):
+    """Reference run: same workflow, outcome table and environment seed, no interruption."""
+    import os, random
+    outcome = gen.make_outcome(w, random.Random(outcome_seed), mode)
+    res = driver.execute(w.flow_text(), outcome, env_seed, os.path.join(home, "twin"), policy=policy, name="twin")
+    launched = {(e["t"]["id"][0], e["t"]["id"][1]) for e in res.events if e["e"] == "prepare"}
+    n_events = len(res.events)
+    n_iters = sum(1 for e in res.events if e["e"] == "loop_begin")
+    return {"launched": launched, "done": _done_set(res.events),
+            "reason": {"auto": "AUTOMATIC"}.get(res.end, res.end or "none")}, n_events, n_iters
+
+def restart(job, rng, home):
+    """Stop (clean / now) at a random iteration with the scheduler's view in sync, restart, run on; compare the
+    restored state with the state at shutdown and the outcome with the uninterrupted twin."""
+    import os, random
+    w = gen.generate(rng, features=job.get("features"))
+    mode = job.get("mode", "complete")
+    oseed, eseed = rng.randrange(1 << 30), rng.randrange(1 << 30)
+    twin, n_events, n_iters = _twin(w, oseed, eseed, home, mode)
+    outcome = gen.make_outcome(w, random.Random(oseed), mode)
+    k = rng.randint(1, max(1, n_iters - 1))
+    smode = rng.choice(["REQUEST_NOW", "REQUEST_CLEAN", "REQUEST_NOW"])
+    plan = {"stop": {"iter": k, "mode": smode, "restart": True, "sync": True}}
+    res = driver.execute(w.flow_text(), outcome, eseed, os.path.join(home, "main"), plan=plan)
+    return _pack(job["seed"], w, res, {"allcomplete": False, "stopreq": True, "hastwin": True, "twin": twin},
+                 {"plan": plan})
+
+def crash(job, rng, home):
+    """Kill the scheduler at a random linearization point or inside a DB transaction, restart from the DB."""
+    import os, random
+    w = gen.generate(rng, features=job.get("features"))
+    mode = job.get("mode", "complete")
+    oseed, eseed = rng.randrange(1 << 30), rng.randrange(1 << 30)
+    twin, n_events, n_iters = _twin(w, oseed, eseed, home, mode)
+    outcome = gen.make_outcome(w, random.Random(oseed), mode)
+    if rng.random() < 0.5:
+        kill = {"kind": "emit", "n": rng.randint(8, max(9, n_events - 5))}
+    else:
+        kill = {"kind": "stmt", "n": rng.randint(1, max(2, n_events // 3))}
+    kill["down_steps"] = rng.choice([0, 0, 1, 3])
+    plan = {"kill": kill}
+    res = driver.execute(w.flow_text(), outcome, eseed, os.path.join(home, "main"), plan=plan)
+    return _pack(job["seed"], w, res, {"allcomplete": False, "stopreq": True, "hastwin": True, "twin": twin},
+                 {"plan": plan})
+
+SCENARIOS.update({"restart": restart, "crash": crash})
